@@ -193,4 +193,12 @@ theorem C04_schema_entries_exact (name : String) (fi mi : List (Nat × Nat)) (fu
     ∀ p ∈ js.zip es, ∃ v o, Codec.entryOf p.1 = some (v, o) ∧ Codec.valueIs v p.2.1 = true :=
   Codec.checkEntries_values name fi mi fuel i js es h
 
+/-- an accepted object-id table of schema.json is an object whose every member is
+    `"<oid>": "h<uuid-handle>"`, and the comparison returns exactly one pair per member (no member
+    is skipped; that the uuid sets agree goes through `Array.qsort` and is executable only) -/
+theorem C04_schema_ids_wellformed (j : Json.J) (ids got : List (Nat × Nat)) (h : Codec.checkIds j ids = .ok got) :
+    ∃ kv, j = .obj kv ∧ got.length = kv.length ∧
+      ∀ p ∈ got, ∃ q ∈ kv, Codec.natOf q.1 = some p.1 ∧ ∃ b, q.2 = .str b ∧ Codec.handleOf b = some p.2 :=
+  Codec.checkIds_ok j ids got h
+
 end Sod.Props
